@@ -1,7 +1,11 @@
 (* Pins for C02: restated statements + assumptions. Generated once by tools/mkpins.py, then committed. *)
 Require Import VT.Tac VT.ListN VT.Attrs VT.Cell VT.Row VT.Grid VT.Screen VT.Vte VT.Perform VT.Parser VT.Term VT.Emit.
 Require Import VT.GridInv VT.ScreenInv VT.ParseSer VT.CellWf VT.WfInv VT.SgrSpec VT.EmitSafe VT.AttrsInv VT.EmitTokens VT.ObsSpec VT.DiffRound.
-Require Import VT.Props.C02.
+Require Import VT.Tac VT.ListN VT.Utf8 VT.Width VT.Attrs VT.Cell VT.Row VT.Grid VT.Screen VT.Vte VT.Perform VT.Parser VT.Term VT.Emit.
+Require Import VT.RowInv VT.GridInv VT.TextInv VT.ScreenInv VT.ParseSer VT.CellWf VT.WfInv VT.WrapInv VT.WrapInvScreen VT.SgrSpec VT.EmitSafe VT.ObsSpec.
+Require Import VT.AttrsInv VT.EmitTokens VT.CellInv VT.Recv VT.RowPaint VT.Redraw VT.Cursor VT.C01Main VT.C15Main VT.CapInv VT.Idem VT.LastRow VT.C01Examples VT.Bytes.
+Require Import VT.DiffRound VT.DiffPaint VT.DiffGrid VT.DiffMain VT.DiffRoundU.
+Require Import VT.Props.C02 VT.Props.C02sem.
 Open Scope N_scope.
 Check C02_statement_def : forall Pr Sc,
   diff_round_ok Pr Sc <->
@@ -47,3 +51,160 @@ Check C02_equal_obs_round : forall Pr Sc o r, reachable Sc -> reachable Pr -> ob
 Print Assumptions C02_equal_obs_round.
 Check C02_example : exists Pr Sc, reachable Pr /\ reachable Sc /\ diff_round_ok Pr Sc.
 Print Assumptions C02_example.
+Check C02sem_in_U_def : forall s, in_U s <->
+  (sb_off (cur s) = 0 /\ Forall (fun rw => wrapped rw = false) (live (cur s))).
+Print Assumptions C02sem_in_U_def.
+Check C02sem_visible_def : forall s, sb_off (cur s) = 0 -> visible_rows (cur s) = Ok (live (cur s)).
+Print Assumptions C02sem_visible_def.
+Check C02sem_round_def : forall Pr Sc, diff_round_ok Pr Sc <->
+  exists r o,
+    (do r0 <- (do r <- parser_new (grows (cur Pr)) (gcols (cur Pr)) 0 false;
+               do ts <- state_formatted_t Pr; process r (ser_all ts));
+     do ts <- state_diff_t Sc Pr; process r0 (ser_all ts)) = Ok r /\
+    obs (scr r) = Ok o /\ obs Sc = Ok o.
+Print Assumptions C02sem_round_def.
+Check C02sem_shows_def : forall S R vr, shows S R vr <->
+  (canvas R /\ grows (g R) = grows (cur S) /\ gcols (g R) = gcols (cur S) /\ live (g R) = vr /\
+   prow (g R) = prow (cur S) /\ pcol (g R) = pcol (cur S) /\ hide R = hide S /\ pen R = pen S).
+Print Assumptions C02sem_shows_def.
+Check C02sem_U : forall P S,
+  reachable P -> reachable S -> in_U P -> in_U S ->
+  grows (cur P) = grows (cur S) -> gcols (cur P) = gcols (cur S) ->
+  diff_round_ok P S.
+Print Assumptions C02sem_U.
+Check C02sem_U_strong : forall P S,
+  reachable P -> reachable S -> in_U P -> in_U S ->
+  grows (cur P) = grows (cur S) -> gcols (cur P) = gcols (cur S) ->
+  exists r, diff_round P S = Ok r /\ obs (scr r) = obs S /\ log r = [] /\ ground (vt r) /\ canvas (scr r).
+Print Assumptions C02sem_U_strong.
+Check C02sem_untouched_wraps_def : forall vr pvr, untouched_wraps vr pvr <->
+  forall i src prev, get vr i = Some src -> get pvr i = Some prev ->
+    wrapped src = true \/ wrapped prev = true ->
+    wrapped src = true /\ wrapped prev = true /\ cells src = cells prev /\
+    forall s1 p1, get vr (i + 1) = Some s1 -> get pvr (i + 1) = Some p1 -> cells s1 = cells p1.
+Print Assumptions C02sem_untouched_wraps_def.
+Check C02sem_in_W_def : forall P S, in_W P S <->
+  (sb_off (cur P) = 0 /\ sb_off (cur S) = 0 /\ untouched_wraps (live (cur S)) (live (cur P))).
+Print Assumptions C02sem_in_W_def.
+Check C02sem_U_in_W : forall P S, in_U P -> in_U S -> in_W P S.
+Print Assumptions C02sem_U_in_W.
+Check C02sem_W : forall P S,
+  reachable P -> reachable S -> in_W P S ->
+  grows (cur P) = grows (cur S) -> gcols (cur P) = gcols (cur S) ->
+  diff_round_ok P S.
+Print Assumptions C02sem_W.
+Check C02sem_W_strong : forall P S,
+  reachable P -> reachable S -> in_W P S ->
+  grows (cur P) = grows (cur S) -> gcols (cur P) = gcols (cur S) ->
+  exists r, diff_round P S = Ok r /\ obs (scr r) = obs S /\ log r = [] /\ ground (vt r) /\ canvas (scr r).
+Print Assumptions C02sem_W_strong.
+Check C02sem_chain_W_def : forall rows cols prev s rest,
+  chain_W rows cols prev (s :: rest) <->
+  (reachable s /\ grows (cur s) = rows /\ gcols (cur s) = cols /\ in_W prev s /\ chain_W rows cols s rest).
+Print Assumptions C02sem_chain_W_def.
+Check C02sem_chain_W : forall rows cols S0 snaps,
+  reachable S0 -> sb_off (cur S0) = 0 -> grows (cur S0) = rows -> gcols (cur S0) = cols ->
+  chain_W rows cols S0 snaps ->
+  exists r r', reproduce S0 = Ok r /\ diff_chain r S0 snaps = Ok r' /\
+               obs (scr r') = obs (last_snap S0 snaps) /\ log r' = [] /\ ground (vt r').
+Print Assumptions C02sem_chain_W.
+Check C02sem_state_diff_W : forall S P R vr pvr ts,
+  source_ok S vr -> source_ok P pvr -> untouched_wraps vr pvr ->
+  grows (cur S) = grows (cur P) -> gcols (cur S) = gcols (cur P) ->
+  shows P R pvr -> same_modes P R -> state_diff_t S P = Ok ts ->
+  exists R', plays R ts R' /\ shows S R' vr /\ same_modes S R'.
+Print Assumptions C02sem_state_diff_W.
+Check C02sem_grid_diff_W : forall R x px vr pvr pa,
+  canvas R -> vrows_ok (gcols (g R)) vr -> Forall (srow_ok (gcols (g R))) pvr ->
+  untouched_wraps vr pvr ->
+  visible_rows x = Ok vr -> visible_rows px = Ok pvr ->
+  len vr = grows (g R) -> len pvr = grows (g R) -> gcols x = gcols (g R) ->
+  prow x < grows (g R) -> pcol x <= gcols (g R) ->
+  cv R pvr (prow px) (pcol px) -> pen_ok pa ->
+  exists ts a' R2,
+    grid_contents_diff x px pa = Ok (ts, a') /\
+    plays (rcv R pvr (prow px) (pcol px) pa) ts (rcv R2 vr (prow x) (pcol x) a') /\
+    cv R2 vr (prow x) (pcol x) /\ same_base R R2 /\ pen_ok a'.
+Print Assumptions C02sem_grid_diff_W.
+Check C02sem_chain_U : forall rows cols S0 snaps,
+  snap_ok rows cols S0 -> Forall (snap_ok rows cols) snaps ->
+  exists r r', reproduce S0 = Ok r /\ diff_chain r S0 snaps = Ok r' /\
+               obs (scr r') = obs (last_snap S0 snaps) /\ log r' = [] /\ ground (vt r').
+Print Assumptions C02sem_chain_U.
+Check C02sem_snap_ok_def : forall rows cols s, snap_ok rows cols s <->
+  (reachable s /\ in_U s /\ grows (cur s) = rows /\ gcols (cur s) = cols).
+Print Assumptions C02sem_snap_ok_def.
+Check C02sem_chain_step : forall rows cols snaps prev r,
+  snap_ok rows cols prev -> Forall (snap_ok rows cols) snaps ->
+  ground (vt r) -> shows prev (scr r) (live (cur prev)) -> same_modes prev (scr r) ->
+  exists r', diff_chain r prev snaps = Ok r' /\ log r' = log r /\ ground (vt r') /\
+             shows (last_snap prev snaps) (scr r') (live (cur (last_snap prev snaps))) /\
+             same_modes (last_snap prev snaps) (scr r') /\
+             obs (scr r') = obs (last_snap prev snaps).
+Print Assumptions C02sem_chain_step.
+Check C02sem_play_U : forall P S R tsP tsD,
+  source_ok P (live (cur P)) -> source_ok S (live (cur S)) ->
+  unwrapped_rows (live (cur P)) -> unwrapped_rows (live (cur S)) -> sb_off (cur S) = 0 ->
+  grows (cur S) = grows (cur P) -> gcols (cur S) = gcols (cur P) ->
+  canvas R -> grows (g R) = grows (cur P) -> gcols (g R) = gcols (cur P) ->
+  mmode R = MNone -> menc R = EDefault ->
+  state_formatted_t P = Ok tsP -> state_diff_t S P = Ok tsD ->
+  exists R1 R2, play false R tsP = Ok (R1, []) /\ play false R1 tsD = Ok (R2, []) /\
+                canvas R2 /\ obs R2 = obs S.
+Print Assumptions C02sem_play_U.
+Check C02sem_state_diff : forall S P R vr pvr ts,
+  source_ok S vr -> source_ok P pvr -> unwrapped_rows vr -> unwrapped_rows pvr ->
+  grows (cur S) = grows (cur P) -> gcols (cur S) = gcols (cur P) ->
+  shows P R pvr -> same_modes P R -> state_diff_t S P = Ok ts ->
+  exists R', plays R ts R' /\ shows S R' vr /\ same_modes S R'.
+Print Assumptions C02sem_state_diff.
+Check C02sem_contents_diff : forall S P R vr pvr ts,
+  source_ok S vr -> source_ok P pvr -> unwrapped_rows vr -> unwrapped_rows pvr ->
+  grows (cur S) = grows (cur P) -> gcols (cur S) = gcols (cur P) ->
+  shows P R pvr -> contents_diff_t S P = Ok ts ->
+  exists R', plays R ts R' /\ shows S R' vr /\
+             keypad R' = keypad R /\ appcur R' = appcur R /\ paste R' = paste R /\
+             mmode R' = mmode R /\ menc R' = menc R.
+Print Assumptions C02sem_contents_diff.
+Check C02sem_grid_diff : forall R x px vr pvr pa,
+  canvas R -> vrows_ok (gcols (g R)) vr -> Forall (srow_ok (gcols (g R))) pvr ->
+  unwrapped_rows vr -> unwrapped_rows pvr ->
+  visible_rows x = Ok vr -> visible_rows px = Ok pvr ->
+  len vr = grows (g R) -> len pvr = grows (g R) -> gcols x = gcols (g R) ->
+  prow x < grows (g R) -> pcol x <= gcols (g R) ->
+  cv R pvr (prow px) (pcol px) -> pen_ok pa ->
+  exists ts a' R2,
+    grid_contents_diff x px pa = Ok (ts, a') /\
+    plays (rcv R pvr (prow px) (pcol px) pa) ts (rcv R2 vr (prow x) (pcol x) a') /\
+    cv R2 vr (prow x) (pcol x) /\ same_base R R2 /\ pen_ok a'.
+Print Assumptions C02sem_grid_diff.
+Check C02sem_row_diff : forall R i src prev l ri0 r c a,
+  i < grows (g R) -> srow_ok (gcols (g R)) src -> srow_ok (gcols (g R)) prev ->
+  cv R l r c -> pen_ok a -> get l i = Some ri0 -> cells ri0 = cells prev -> wrapped ri0 = false ->
+  wrapped src = false -> wrapped prev = false ->
+  exists ts r1 c1 a1 ri,
+    row_diff src prev 0 (gcols (g R)) i false false (r, c) a = Ok (ts, (r1, c1), a1) /\
+    plays (rcv R l r c a) ts (rcv R (set_at l i ri) r1 c1 a1) /\
+    cv R (set_at l i ri) r1 c1 /\ pen_ok a1 /\
+    cells ri = cells src /\ wrapped ri = false /\
+    (cells src = cells prev -> ts = [] /\ r1 = r /\ c1 = c /\ a1 = a).
+Print Assumptions C02sem_row_diff.
+Check C02sem_print_cell_gen : forall R l r j a rw c, cv R l r j -> get l r = Some rw ->
+  cell_wf c -> cell_cap c -> has_contents c = true ->
+  j + adv_n c <= gcols (g R) -> fc (cells rw) j = false ->
+  exists rw', printed rw rw' j c a /\
+    plays (rcv R l r j a) [TChars (ctext c)] (rcv R (set_at l r rw') r (j + adv_n c) a).
+Print Assumptions C02sem_print_cell_gen.
+Check C02sem_example : exists Pr Sc,
+  after 3 6 exU_P = Ok Pr /\ after 3 6 exU_S = Ok Sc /\
+  reachable Pr /\ reachable Sc /\ in_U Pr /\ in_U Sc /\
+  grows (cur Pr) = grows (cur Sc) /\ gcols (cur Pr) = gcols (cur Sc) /\
+  pcol (cur Pr) = gcols (cur Pr) /\ pcol (cur Sc) = gcols (cur Sc) /\ prow (cur Pr) <> prow (cur Sc) /\
+  diff_round_ok Pr Sc.
+Print Assumptions C02sem_example.
+Check C02sem_example_W : exists Pr Sc,
+  after 3 4 exW_P = Ok Pr /\ after 3 4 exW_S = Ok Sc /\
+  reachable Pr /\ reachable Sc /\ in_W Pr Sc /\ ~ in_U Pr /\
+  grows (cur Pr) = grows (cur Sc) /\ gcols (cur Pr) = gcols (cur Sc) /\
+  diff_round_ok Pr Sc.
+Print Assumptions C02sem_example_W.
